@@ -12,7 +12,10 @@ Inductive case :=
 (* a well-formed packet encoded by paho (independent implementation), decoded by the broker;
    and the broker's encoding decoded by paho (true = paho returned the same field values) *)
 | CPaho (p : packet) (paho_bytes : bytes) (impl_dec : res merr (packet * N))
-        (paho_reads_impl : bool).
+        (paho_reads_impl : bool)
+(* PUBLISH packets encoded concurrently: how many the writer received, how many of them were not one
+   of the packets sent, or were lost or duplicated *)
+| CEncStress (total bad : N).
 
 Definition pn_eqb (a b : packet * N) : bool := packet_eqb (fst a) (fst b) && (snd a =? snd b).
 Definition with_left (r : res merr (packet * bytes)) : res merr (packet * N) :=
@@ -22,6 +25,7 @@ Definition body_fits (p : packet) : bool := len (body311 p) <=? bodyRoom.
 
 Definition check (c : case) : N :=
   match c with
+  | CEncStress total bad => bit (bad =? 0) 2
   | CEnc p ie trailer id =>
     (* bit 0: model = implementation *)
     bit (res_eqb bytes_eqb (encode p) ie) 1
